@@ -115,7 +115,14 @@ claim("C07", "typestate over marker files: derived file-owning classes, dominanc
       "published files; nothing is written after a marker. Byte equality of recomputed outputs is not decided.",
       "DESIGN.md 3/C07 (R1-R4)")
 
-for _p in ["C06", "C10"]:
+claim("C10", "loop-carried dependence analysis: linearised access sequences of driver-object locations, class-level / module-level state census",
+      "Decides independence structurally: over `for sample in samples: process_sample(sample)` every DatasetProcessor / shared-args "
+      "location modified in an iteration is plainly and unconditionally written before any use in that iteration; every class-level "
+      "or module-level mutable location that is modified is re-initialised per chromosome task / experiment or is in the benign "
+      "table with a reason (3 opaque counters). Equality with stand-alone runs and combined_* tables are not decided.",
+      "DESIGN.md 3/C10 (S1)")
+
+for _p in ["C06"]:
     na(_p, NOT_BUILT)
 
 na("C12", "equality of outputs across .gtf/.gtf.gz/.db, --complete_genedb and BAM partitions is determined by what gffutils "
